@@ -239,6 +239,10 @@ func (e *vestEnv) observe(c *fw.Case, o *txOutcome) {
 			if p.Name != op.pool || p.IL.Cmp(op.amount) != 0 || p.W.Sign() != 0 || p.S.Sign() != 0 || !p.LockStart.Equal(o.now) || !p.LockEnd.Equal(o.now.Add(msg.Duration)) || p.Genesis {
 				c.Violate("C05/create-pool-ledger", "create-pool: new pool %+v does not match the request %s at %s", p, op.desc, fmtTime(o.now))
 			}
+			if !p.LockEnd.Equal(o.now.Add(msg.Duration)) {
+				// C06: the pool is locked for as long as its owner asked for
+				c.Violate("C06/lock-end-not-as-requested", "pool %s was created at %s with a lock of %s, its lock end is %s", p.Name, fmtTime(o.now), msg.Duration, fmtTime(p.LockEnd))
+			}
 			if p.Genesis {
 				// lineage (C17): only pools listed in the genesis file are genesis pools
 				c.Violate("C17/created-pool-marked-genesis", "pool %s created by a message of %s is flagged as a genesis pool", p.Name, short(op.owner, 12))
